@@ -195,7 +195,9 @@ def _cfg(raw: dict):
 # --------------------------------------------------------------------------------------------
 
 OKEYS = {"id": lambda k: k, "neg": lambda k: -k, "mod2": lambda k: k % 2, "const": lambda k: 0,
-         "div2": lambda k: k // 2}
+         "div2": lambda k: k // 2,
+         # non-integer order keys: strings ("10" < "2") and tuples
+         "str": lambda k: str(k), "tup": lambda k: (k % 3, str(k)), "postup": lambda k: (k, str(k))}
 EXC = {"ValueError": ValueError, "KeyError": KeyError, "RuntimeError": RuntimeError, "ZeroDivisionError": ZeroDivisionError}
 
 
@@ -208,12 +210,13 @@ class ParComp(Component):
     budget = {"quick": 1500, "thorough": 20000, "search": 40000}
 
     def gen(self, rng: random.Random, i: int) -> dict:
-        n = rng.choice([0, 1, 2, 3, 3, 4, 4, 5, 5, 6, 8])
-        keyspace = rng.choice([2, 3, 10])
+        n = rng.choice([0, 1, 2, 3, 3, 4, 4, 5, 5, 6, 8, 11, 12, 17, 24, 30])
+        keyspace = rng.choice([2, 3, 10, 40])
         tasks = []
-        pfail = rng.choice([0.0, 0.0, 0.2, 0.5, 1.0])
+        pfail = rng.choice([0.0, 0.0, 0.2, 0.5, 1.0]) if n <= 8 else rng.choice([0.0, 0.0, 0.0, 0.1, 0.3])
+        positional = rng.random() < 0.3        # keys = submit index (distinct positional keys)
         for t in range(n):
-            k = rng.randrange(-keyspace, keyspace)
+            k = t if positional else rng.randrange(-keyspace, keyspace)
             if rng.random() < pfail:
                 tn = rng.choice(sorted(EXC))
                 tasks.append([k, "err", tn, rng.choice(["", "boom", "x"])])
@@ -281,6 +284,11 @@ class ParComp(Component):
             res.append(("no_failure_swallowed", nfail == 0, f"{nfail} failing tasks but a value was returned"))
             ks = [OKEYS[case["okey"]](p[0]) for p in impl_out["ok"]]
             res.append(("merge_input_key_sorted", ks == sorted(ks), f"order keys {ks}"))
+            # ordering clause: distinct order keys that increase with the submit position => merge input = submit order
+            sub = [OKEYS[case["okey"]](t[0]) for t in case["tasks"]]
+            if nfail == 0 and all(a < b for a, b in zip(sub, sub[1:])):
+                res.append(("merge_input_is_submit_order", [p[0] for p in impl_out["ok"]] == [t[0] for t in case["tasks"]],
+                            f"keys handed to merge {[p[0] for p in impl_out['ok']]}"))
             res.append(("merge_called_once", impl_out["_merge_calls"] == 1, f"merge calls {impl_out['_merge_calls']}"))
             got = sorted((repr(tuple(p)) for p in impl_out["ok"]))
             want = sorted(repr((t[0], t[2])) for t in case["tasks"] if t[1] == "ok")
@@ -300,6 +308,12 @@ class ParComp(Component):
             t.add("permuted_completion")
         if case["w"] <= 1 and case["tasks"]:
             t.add("one_worker")
+        if len(case["tasks"]) > 10:
+            t.add("tasks>10")
+        if case["okey"] in ("str", "tup", "postup"):
+            t.add("nonint_order_key")
+        if len(ks) > 1 and all(a < b for a, b in zip(ks, ks[1:])):
+            t.add("positional_keys")
         return sorted(t) or ["default"]
 
     def shrink(self, case):
@@ -417,14 +431,17 @@ def _reset_t1_cache():
 
 class T1FanComp(Component):
     name = "par.t1"
-    budget = {"quick": 1000, "thorough": 15000, "search": 20000}
+    budget = {"quick": 700, "thorough": 12000, "search": 20000}
     WORDS = ["alpha", "beta", "gamma", "delta", "eps", "zeta"]
 
     def gen(self, rng: random.Random, i: int) -> dict:
-        ng = rng.choice([1, 2, 2, 3, 4, 6])
+        big = rng.random() < 0.25
+        ng = rng.choice([11, 12, 13, 16, 21, 24]) if big else rng.choice([1, 2, 2, 3, 4, 6])
+        # gid naming schemes whose lexicographic order differs from the numeric / positional one
+        scheme = rng.choice(["mixed", "num", "gnum", "rev", "width"])
         graphs = []
         for g in range(ng):
-            nn = rng.choice([0, 1, 2, 4, 6])
+            nn = rng.choice([1, 2, 3] if big else [0, 1, 2, 4, 6])
             nodes = [[f"n{g}_{j}" if rng.random() < 0.7 else f"n_{j}", rng.choice(self.WORDS + [""])] for j in range(nn)]
             edges = []
             for _ in range(rng.choice([0, nn, 2 * nn])):
@@ -432,12 +449,21 @@ class T1FanComp(Component):
                     a, b = rng.randrange(nn), rng.randrange(nn)
                     edges.append([nodes[a][0], nodes[b][0], rng.choice([1.0, 0.8, 0.5, 0.25, -0.5, 1e-7]),
                                   rng.choice(["supports", "associates", "contradicts", "other"])])
-            graphs.append({"gid": rng.choice([f"g{g}", f"G{g}", f"z{9 - g}"]) + f"_{g}", "nodes": nodes, "edges": edges})
+            gid = {"mixed": rng.choice([f"g{g}", f"G{g}", f"z{9 - g}"]) + f"_{g}", "num": str(g), "gnum": f"g{g}",
+                   "rev": f"g{ng - g}", "width": f"{g:02d}" if g % 2 else f"g{g}"}[scheme]
+            graphs.append({"gid": gid, "nodes": nodes, "edges": edges})
         active = list(range(ng))
-        if rng.random() < 0.25:
-            active.append(rng.randrange(ng))      # repeated gid
-        if rng.random() < 0.3:
+        for _ in range(rng.choice([0, 0, 0, 1, 1, 3])):
+            active.insert(rng.randrange(len(active) + 1), rng.randrange(ng))      # repeated gids
+        r = rng.random()
+        if r < 0.25:
             rng.shuffle(active)
+        elif r < 0.35:
+            active.reverse()
+        elif r < 0.45:
+            active.sort(key=lambda i: graphs[i]["gid"])          # lexicographic by gid
+        elif r < 0.5:
+            active = active[len(active) // 2:] + active[:len(active) // 2]   # rotation
         cache = rng.random() < 0.35
         perf = rng.random() < 0.6
         n = len(active)
@@ -460,7 +486,7 @@ class T1FanComp(Component):
         perfd = {"enabled": perf, "metrics": {"report_memory": rng.random() < 0.7}, "t1": pt1}
         text = " ".join(rng.sample(self.WORDS, rng.choice([0, 1, 2, 4])))
         return {"graphs": graphs, "active": active, "t1": t1, "perf": perfd, "text": text,
-                "w": rng.choice([2, 2, 3, 4, 8]), "pi": pi, "real_pool": rng.random() < 0.15}
+                "w": rng.choice([2, 2, 3, 4, 8, 16, 32]), "pi": pi, "real_pool": rng.random() < 0.15}
 
     # -- real code ---------------------------------------------------------------------------
     def _state(self, case, active):
@@ -549,6 +575,11 @@ class T1FanComp(Component):
             a, b = impl_out["seq"], impl_out[tag]
             ok = a["deltas"] == b["deltas"] and a["ops"] == b["ops"]
             res.append((f"t1_{tag}_deltas_eq_seq", ok, f"seq {a['deltas']} par {b['deltas']}"))
+            # ordering clause: task keys are positional (index first), so the reduce sees the graphs in
+            # active_graphs order: deltas = concatenation of the per-graph deltas in that order
+            want = [d for i in case["active"] for d in impl_out["singles"][i]["deltas"]]
+            res.append((f"t1_{tag}_deltas_in_active_order", b["deltas"] == want,
+                        f"fan-out deltas {b['deltas']} != per-graph deltas in active_graphs order {want}"))
             ma = {k: v for k, v in a["metrics"].items() if k not in skip2}
             mb = {k: v for k, v in b["metrics"].items() if k not in skip2}
             d = None if _canon(ma) == _canon(mb) else first_diff(_canon(ma), _canon(mb))
@@ -561,6 +592,14 @@ class T1FanComp(Component):
             t.add("multi_graph")
         if len(set(case["active"])) < len(case["active"]):
             t.add("repeated_gid")
+        if len(case["active"]) > 10:
+            t.add("graphs>10")
+        gids = [case["graphs"][i]["gid"] for i in case["active"]]
+        if gids != sorted(gids):
+            t.add("active_not_lex_sorted")
+        idxs = [f"{i}:{g}" for i, g in enumerate(gids)]
+        if idxs != sorted(idxs):
+            t.add("str_index_order_differs")
         if impl_out["seq"]["deltas"]:
             t.add("deltas")
         if sum(1 for s in impl_out["singles"] if s["deltas"]) > 1:
@@ -576,11 +615,35 @@ class T1FanComp(Component):
         return sorted(t) or ["default"]
 
 
+def _t1_shrink(comp: T1FanComp, case: dict, names: set) -> dict:
+    """greedy: drop entries of active_graphs while one of the failing monitors still fails."""
+    def fails(c):
+        try:
+            io = comp.impl(c)
+        except Exception:
+            return False
+        return any((not ok) and name in names for name, ok, _ in comp.monitors(c, io))
+    cur, steps, progress = case, 0, True
+    while progress and steps < 80:
+        progress = False
+        for i in range(len(cur["active"])):
+            steps += 1
+            if steps >= 80:
+                break
+            act = cur["active"][:i] + cur["active"][i + 1:]
+            cand = dict(cur, active=act, pi=list(range(len(act))), real_pool=False)
+            if act and fails(cand):
+                cur, progress = cand, True
+                break
+    return cur
+
+
 def _run_t1(ctx: Ctx, comp: T1FanComp) -> None:
     n = int(comp.budget.get(ctx.tier, comp.budget["quick"]) * ctx.budget_scale)
     rng = ctx.rng_for(comp.name)
     cases = list(comp.corpus(ctx)) + [comp.gen(rng, i) for i in range(n)]
     reqs, metas = [], []
+    shrunk_for: set = set()
     for c in cases:
         try:
             io = comp.impl(c)
@@ -595,6 +658,12 @@ def _run_t1(ctx: Ctx, comp: T1FanComp) -> None:
                 ctx.monitor_fail(comp.name, "t1_par_raises_seq_does_not", c, f"{type(e).__name__}: {e}")
             continue
         ctx.record_case(comp.name, c, comp.tags(c, io))
+        bad = {name for name, ok, _ in comp.monitors(c, io) if not ok}
+        if bad and not (bad <= shrunk_for):
+            shrunk_for |= bad
+            c2 = _t1_shrink(comp, c, bad)
+            if c2 is not c:
+                c, io = c2, comp.impl(c2)
         for name, ok, detail in comp.monitors(c, io):
             if not ok:
                 ctx.monitor_fail(comp.name, name, c, detail, {"seq": io["seq"], "par": io["par"]})
@@ -717,8 +786,8 @@ class MergeComp(Component):
     budget = {"quick": 1500, "thorough": 20000, "search": 40000}
 
     def gen(self, rng, i):
-        ns = rng.choice([1, 2, 2, 3, 4])
-        ids = [rng.choice("abcXYZ") + str(rng.randrange(0, 4)) for _ in range(rng.choice([3, 6, 10]))]
+        ns = rng.choice([1, 2, 2, 3, 4, 11, 13, 20])
+        ids = [rng.choice("abcXYZ") + str(rng.randrange(0, 4 if ns < 10 else 12)) for _ in range(rng.choice([3, 6, 10]))]
         base = [rng.choice([0.5, 0.5, 0.25, 0.9, 0.1, 1e-10, 1.4e-10, 5e-10, 1.5e-9, 2.5e-9, -0.3]) for _ in ids]
         tiers = rng.choice([TIERS, TIERS[:1], ["archive", "exact_semantic"], ["cluster_semantic", "bogus", "archive"], []])
         shards = []
@@ -808,12 +877,12 @@ class _Enc:
 
 class T2E2EComp(Component):
     name = "par.t2e2e"
-    budget = {"quick": 2500, "thorough": 30000, "search": 40000}
+    budget = {"quick": 2000, "thorough": 24000, "search": 40000}
     VALS = [0.0, 1.0, 1.0, -1.0, 0.5, 2.0, 0.25, 3.0]
     TINY = [1e-10, 1.4e-10, 2e-10, 4.9e-10]
 
     def gen(self, rng, i):
-        n = rng.choice([2, 3, 4, 5, 6, 8, 12])
+        n = rng.choice([2, 3, 4, 5, 6, 8, 12, 12, 23, 30])
         stream = rng.random()
         tiny = stream < 0.06           # near-tie scores (the _qscore finding)
         with_cluster = 0.06 <= stream < 0.30
@@ -841,7 +910,7 @@ class T2E2EComp(Component):
               "ranking": rng.choice([{"alpha_sim": 1.0, "beta_recency": 0.0, "gamma_importance": 0.0},
                                      {"alpha_sim": 0.75, "beta_recency": 0.2, "gamma_importance": 0.05}])}
         perf = {"enabled": rng.random() < 0.7, "metrics": {"report_memory": rng.random() < 0.5}}
-        w = rng.choice([2, 2, 3, 4, 8])
+        w = rng.choice([2, 2, 3, 4, 8]) if n < 12 else rng.choice([3, 8, 11, 12, 16, 30])
         pi = list(range(w))
         rng.shuffle(pi)
         q = [1.0, 0.0, 0.0] if tiny else [rng.choice([1.0, 0.5, -1.0]), rng.choice([0.0, 1.0]), rng.choice([0.0, 0.0, 1.0])]
@@ -995,6 +1064,8 @@ class T2E2EComp(Component):
             t.add("fanout")
             if io["fanout"][0] > 2:
                 t.add("shards>2")
+            if io["fanout"][0] > 10:
+                t.add("shards>10")
         s = io["seq"]
         if isinstance(s, dict) and "retrieved" in s:
             if s["retrieved"]:
@@ -1046,7 +1117,7 @@ def _run_t2e2e(ctx: Ctx, comp: T2E2EComp) -> None:
                     return _canon(o["seq"]) != _canon(o["par"]) and comp.classify(cc) == key
                 try:
                     if _canon(io["seq"]) != _canon(io["par"]):
-                        c2 = shrink_case(comp, c, still, limit=60)
+                        c2 = shrink_case(comp, c, still, limit=30)
                         c, io = c2, comp.impl(c2)
                 except Exception:
                     pass
